@@ -73,6 +73,24 @@ check("C17", "model_checking",
       "Rule universe of C01 carries no action payload; payload-carrying action traces are compared in C05/C19.",
       "DESIGN.md 3.1.3", "E1 router-state explorer")
 
+check("C05", "exploration",
+      "exhaustive product enumeration of rule lists over an effect alphabet against a declarative reference fold",
+      "All rule lists of <=2 rules over 168 shapes (4 response-code conditions x 6 controls incl. reset/stop/sampling 0/100 x 7 payloads) and all lists of 3 over a 40-shape core (thorough: all lists of 3 over the 168 shapes, 4 over a 20-shape core), x 4 rank patterns (incl. ties) x 3 sampling overrides x response codes {0,200,404,500}. Routes come from Rule::into_route and reach Action::from_routes_rule unsorted (1-in-64 through a real Router). Status code, filtered headers, body-filter output, both log decisions, applied ids and the rule-ids header are compared with a reference that sorts by (rank desc, id desc), applies sampling, reset and stop and evaluates each rule's own response-code condition.",
+      "Sampling rates other than 0/100 are random and outside the alphabet. Reference validated in round 0 (7.9M evaluations).",
+      "DESIGN.md 3.4, 4 (C05)", "E4 product enumerator")
+
+check("C06", "exploration",
+      "exhaustive enumeration of library-built actions and probe requests, observation equality before/after JSON round trip (serde and extern C)",
+      "Every action built from all rule lists of <=2 rules over the 168 shapes (thorough: + lists of 3 over the core) x rank patterns x sampling overrides, and from 130+ rules with hand-built body filters (HTML/text variants, every optional field absent/present), is serialised, deserialised (serde_json and redirectionio_action_json_{,de}serialize) and compared on 5 codes x 3 header lists x 2 bodies x fresh/pre-used, plus re-serialisation equality and hand-off after partial use. Every probe request around every rule of a collision-rich router (plus IPv6, sub-second timestamps, non-ASCII headers, all-None) must match the same rules after the round trip, through serde and the extern C functions.",
+      "Domain = actions the library itself builds (not arbitrary JSON).",
+      "DESIGN.md 4 (C06)", "E4 product enumerator")
+
+check("C11", "exploration",
+      "exhaustive enumeration of rule lists x all permutations of match order and insertion order, single-serialisation oracle",
+      "All lists of <=4 (quick) / <=5 (thorough) rules over 12 shapes with conflicting effects (several status codes, Location overrides, log overrides, reset, stop, conditional variants) x 4 rank patterns (distinct, all tied, first two tied, ascending): every permutation of the matched list given to Action::from_routes_rule and every insertion order into a Router (match order then comes from randomly seeded hash maps) must give one and the same serialised action, whose rule_ids order equals the reference (rank desc, id desc) application order after reset/stop.",
+      "Sampling disabled (precondition of the statement).",
+      "DESIGN.md 4 (C11)", "E4 product enumerator")
+
 ALL = [f"C{n:02d}" for n in range(1, 20)]
 
 NOT_BUILT_REASON = "check not built yet in this round (planned, see DESIGN.md section 0); not claimed until its explorer exists and has been shown to detect a seeded change"
